@@ -11,6 +11,7 @@ static std::atomic<long> g_main_calls(0);
 inline void dump_request(cppcms::http::request &rq,std::ostream &out){ using vf::hex;
 	out<<"M "<<hex(rq.request_method())<<"\nS "<<hex(rq.script_name())<<"\nP "<<hex(rq.path_info())<<"\nQ "<<hex(rq.query_string())<<"\nT "<<hex(rq.content_type())<<"\nL "<<rq.content_length()<<"\n";
 	std::map<std::string,std::string> env=rq.getenv(); for(std::map<std::string,std::string>::iterator i=env.begin();i!=env.end();++i){ if(i->first.compare(0,5,"HTTP_")==0&&i->first!="HTTP_CONNECTION") out<<"E "<<i->first<<" "<<hex(i->second)<<"\n"; }
+	/* every variable the environment lists must also be found when looked up by name (both accessors); a discrepancy adds a line the reference never has */ for(std::map<std::string,std::string>::iterator i=env.begin();i!=env.end();++i){ std::string byname=rq.getenv(i->first); const char *cn=rq.cgetenv(i->first.c_str()); std::string cname= cn?cn:"<null>"; if(byname!=i->second||cname!=i->second) out<<"LOOKUP-MISMATCH "<<i->first<<" listed="<<hex(i->second)<<" getenv(name)="<<hex(byname)<<" cgetenv(name)="<<hex(cname)<<"\n"; }
 	{ std::vector<std::string> v; for(cppcms::http::request::form_type::const_iterator i=rq.get().begin();i!=rq.get().end();++i) v.push_back(hex(i->first)+"="+hex(i->second)); std::sort(v.begin(),v.end()); for(size_t i=0;i<v.size();i++) out<<"G "<<v[i]<<"\n"; }
 	{ std::vector<std::string> v; for(cppcms::http::request::form_type::const_iterator i=rq.post().begin();i!=rq.post().end();++i) v.push_back(hex(i->first)+"="+hex(i->second)); std::sort(v.begin(),v.end()); for(size_t i=0;i<v.size();i++) out<<"F "<<v[i]<<"\n"; }
 	{ std::vector<std::string> v; for(cppcms::http::request::cookies_type::const_iterator i=rq.cookies().begin();i!=rq.cookies().end();++i) v.push_back(hex(i->first)+"="+hex(i->second.value())); std::sort(v.begin(),v.end()); for(size_t i=0;i<v.size();i++) out<<"C "<<v[i]<<"\n"; }
